@@ -146,11 +146,14 @@ def _check(ctx, mod, replay_shard):
     counters, features, distinct, samples = {}, {}, set(), []
     per_interp_counters = {}
     viol_totals = {}
+    slow_cases = []
     for r in results:
         got_summary = False
         for rec in r["records"]:
             t = rec.get("t")
-            if t == "viol":
+            if t == "slow_cases":
+                slow_cases.extend(rec["cases"])
+            elif t == "viol":
                 viols.append(rec)
             elif t == "inconclusive":
                 inconcl.append(rec)
@@ -231,7 +234,7 @@ def _check(ctx, mod, replay_shard):
             "property_id": prop, "tier": ctx.tier, "seed": ctx.seed, "level": "exploration",
             "coverage": {
                 "evaluations": int(counters.get(getattr(mod, "EVAL_COUNTER", "evaluations"), 0)),
-                "distinct_nontrivial": len(distinct),
+                "distinct_nontrivial": len(distinct) + int(counters.get("distinct_by_construction", 0)),
                 "rule": getattr(mod, "RULE", ""),
                 "samples": samples or ["(none recorded)"],
                 "interpreters": sorted(per_interp_counters),
@@ -241,6 +244,9 @@ def _check(ctx, mod, replay_shard):
                 "counters": {k: counters[k] for k in sorted(counters)},
                 "features": {k: features[k] for k in sorted(features)},
                 "shards": len(results),
+                "slowest_cases_s": sorted(slow_cases, reverse=True)[:6],
+                "shard_wall_s_max": round(max([r["wall"] for r in results] or [0]), 1),
+                "shard_wall_s_sum": round(sum(r["wall"] for r in results), 1),
                 "worker_problems": worker_problems[:10],
                 "inconclusive_cases": len(inconcl),
                 "unreached_deciding_monitors": unreached,
@@ -265,7 +271,8 @@ def _check(ctx, mod, replay_shard):
 
     print("%s tier=%s seed=%d interpreters=%s shards=%d evaluations=%d distinct_nontrivial=%d wall=%.1fs" % (
         prop, ctx.tier, ctx.seed, ",".join(sorted(per_interp_counters)), len(results),
-        counters.get(getattr(mod, "EVAL_COUNTER", "evaluations"), 0), len(distinct), wall))
+        counters.get(getattr(mod, "EVAL_COUNTER", "evaluations"), 0),
+        len(distinct) + int(counters.get("distinct_by_construction", 0)), wall))
     for k in sorted(counters):
         if k.startswith(("calls:", "checks:")):
             print("  monitor %-40s %d" % (k, counters[k]))
@@ -296,6 +303,10 @@ def _check(ctx, mod, replay_shard):
 def _case_id(v):
     c = v.get("case")
     if isinstance(c, dict):
+        if "word" in c:
+            return "word=%#x" % c["word"]
+        if "alteration" in c:
+            return "%s:%s" % (c.get("base"), c.get("alteration"))
         return c.get("id") or c.get("path") or c.get("k")
     return str(c)[:80]
 
